@@ -599,6 +599,92 @@ def run_threads(spec, acc, ctx, mode):
                               f"{' stored' if is_present else 'n absent'} keyword returned {msg}", dict(case, keyword=w))
 
 
+def run_generations(spec, acc, ctx, mode, sig_prefix=""):
+    """Object lifetime: ONE scheme object builds index after index of a changing collection; every index is searched
+    and then DROPPED (del + sometimes gc.collect) before the next is built, so the next index object - and, when the
+    key changes too, the next key object - is likely to be allocated where the dead one lived. Keywords come and go
+    between generations and posting lists change. Whatever the object remembers by identity (id(), weak tables) must
+    not answer for the new generation. mode: 'present' | 'absent' | 'both'."""
+    import gc
+    rng = ctx.rng
+    gen.MIXED_ID_SIZES = False
+    for scheme in [x for _ in range(spec.get("rounds", 1)) for x in spec["schemes"]]:
+        if ctx.out_of_time():
+            break
+        short = gen.SHORT[scheme]
+        cfg = gen.default_config(scheme)
+        if scheme == "CGKO06.SSE1":
+            cfg.update(param_s=64, param_dictionary_size=16)
+        cp = gen.caps(scheme, cfg)
+        isz = cp["id_size"]
+        L = sse.loader(scheme)
+        universe = [b"kw-%d" % i for i in range(6)]
+        pool = gen.gen_ids(rng, isz, 30)
+        if scheme == "CGKO06.SSE2":
+            cfg = dict(cfg, param_n=len(pool))
+        sch = L.SSEScheme(copy.deepcopy(cfg))
+        key = sch.KeyGen()
+        bad = False
+        ngen = spec.get("generations", 60)
+        for g in range(ngen):
+            same_key_mode = g < ngen // 2          # first half: one key; second half: a new key object every generation
+            if bad or ctx.out_of_time():
+                break
+            if not same_key_mode:
+                key = None
+                key = sch.KeyGen()
+            db = {}
+            for w in universe:
+                if rng.random() < 0.6:
+                    db[w] = rng.sample(pool, rng.randint(1, 4))
+            if not db:
+                db[universe[0]] = pool[:2]
+            shadow = copy.deepcopy(db)
+            try:
+                edb = sch.EDBSetup(key, db)
+                if rng.random() < 0.5:
+                    # ... or the index comes back from its serialized form (what a server or a restarted client holds)
+                    edb = L.SSEEncryptedDatabase.deserialize(edb.serialize(), L.SSEConfig(copy.deepcopy(cfg)))
+            except Exception as e:
+                acc.violation(f"{short}:{sig_prefix}edbsetup-raised:generations:{exc_site(e)}",
+                              f"{scheme}: generation {g} of a collection re-indexed by one scheme object raised "
+                              f"{type(e).__name__}: {e}", {"scheme": scheme, "cfg": cfg, "generations": True})
+                break
+            acc.count("generations.indexes")
+            for w in universe:
+                present = w in shadow
+                if mode != "both" and (mode == "present") != present:
+                    # still searched (it is what fills a cache), judged by the other property's check
+                    try:
+                        sch.Search(edb, sch.TokenGen(key, w)).get_result_list()
+                    except Exception:
+                        pass
+                    continue
+                acc.count("generations.searches")
+                want = shadow.get(w, [])
+                try:
+                    got = sch.Search(edb, sch.TokenGen(key, w)).get_result_list()
+                except Exception as e:
+                    acc.violation(f"{short}:{sig_prefix}{'search' if present else 'absent-search'}-raised:generations:{exc_site(e)}",
+                                  f"{scheme}: generation {g} (earlier indexes dropped, {'one key' if same_key_mode else 'a new key each time'}): "
+                                  f"{type(e).__name__}: {e}", {"scheme": scheme, "cfg": cfg, "generations": True})
+                    bad = True
+                    break
+                if not sse.result_matches(scheme, got, want):
+                    acc.violation(f"{short}:{sig_prefix}{'wrong-result' if present else 'absent-nonempty'}:generations",
+                                  f"{scheme}: generation {g} of a collection re-indexed by ONE scheme object "
+                                  f"({'one key' if same_key_mode else 'a new key for every generation'}; every earlier index "
+                                  f"was dropped before the next was built): a{' stored' if present else 'n absent'} keyword "
+                                  f"returns {len(got)} ids, this generation holds {len(want)}",
+                                  {"scheme": scheme, "cfg": cfg, "generations": True, "same_key": same_key_mode})
+                    bad = True
+                    break
+            del edb
+            if g % 5 == 4:
+                gc.collect()
+        acc.add("generations.schemes", short)
+
+
 def replay_steered(case, acc, ctx, mode):
     from vlib.instrument import Steer
     st_ = Steer(ctx.rng, p=0.3, cap=12)
@@ -701,6 +787,9 @@ def finish(m, tier, mode, min_searches):
         inc.append("searches from three threads did not reach the nine schemes / 1000 forced switches")
     if c.get("token_objects_reused_on_a_second_index", 0) < 100:
         inc.append("fewer than 100 token objects were reused on a second index")
+    cov["generations_of_dropped_indexes_on_one_object"] = {k[12:]: v for k, v in c.items() if k.startswith("generations.")}
+    if len(m["sets"].get("generations.schemes", [])) < 9 or c.get("generations.searches", 0) < 1000:
+        inc.append("the dropped-index generations did not reach the nine schemes / 1000 searches")
     cov["steered_values"] = {k[8:]: v for k, v in c.items() if k.startswith("steered.") and k.count(".") == 1}
     if c.get("steered.prf_outputs_forced", 0) < 200 or c.get("steered.searches", 0) < 500:
         inc.append("the steered-values workload forced fewer than 200 PRF outputs or compared fewer than 500 searches")
